@@ -7,6 +7,7 @@ keys and counters are uninterpreted terms.
 """
 from __future__ import annotations
 import numpy as np
+from fractions import Fraction
 
 from ..alg import Poly, AT, Sym, SymDim, K, Pred, lift, to_at, Top, Finding, jnp_sum, at_key
 from ..extern import make_world, same, fz, merge_cond
@@ -248,6 +249,84 @@ def active_prefix(term, p_old, c_old, what):
     raise Inconclusive(f"{what}: activation idiom outside the rule's vocabulary: {str(t)[:200]}")
 
 
+def _eval_int(q, env):
+    """integer value of a polynomial in count symbols under the assignment env (name -> int)"""
+    q = lift(q)
+    tot = Fraction(0)
+    for k, v in q.t.items():
+        m = Fraction(v)
+        for a, e in k:
+            if a[0] == 'K':
+                m *= Fraction(env[a[1]]) ** e
+            elif a[0] == 'S' and isinstance(a[1], Sym) and a[1].op.startswith('$'):
+                m *= Fraction(env[a[1].op]) ** e
+            else:
+                raise KeyError(a)
+        tot += m
+    if tot.denominator != 1:
+        raise KeyError(f"non-integer value {tot}")
+    return int(tot)
+
+
+def active_set_at(term, p_old, c_old, env, size=400):
+    """the active entries of the mask term for ONE assignment of the count symbols (a witness evaluation of the inferred term)"""
+    t = as_sym(term)
+    if isinstance(t, Sym) and same(t, as_sym(p_old)):
+        return set(range(_eval_int(c_old, env)))
+    if is_sym(t, 'at_set', 3):
+        base, idx, v = t.args
+        act = active_set_at(base, p_old, c_old, env, size)
+        if not (isinstance(idx, tuple) and idx and idx[0] == 'slice' and idx[3] is None):
+            raise KeyError(idx)
+        lo = 0 if idx[1] is None else _eval_int(idx[1], env)
+        hi = size if idx[2] is None else _eval_int(idx[2], env)
+        rng = set(range(max(lo, 0), min(hi, size)))
+        return (act | rng) if nonzero_value(v) else (act - rng)
+    if is_sym(t, 'dynamic_update_slice', 3):
+        base, val, off = t.args
+        act = active_set_at(base, p_old, c_old, env, size)
+        lo, L = _eval_int(off[0], env), _eval_int(_axis_len(val[1][0]), env)
+        lo = max(0, min(lo, size - L))           # dynamic_update_slice clamps the start index
+        rng = set(range(lo, lo + L))
+        return (act | rng) if nonzero_value(val) else (act - rng)
+    if is_sym(t, 'fori_loop', 4):
+        lo, hi, body, init = t.args
+        act = active_set_at(init, p_old, c_old, env, size)
+        body = as_sym(body)
+        if not is_sym(body, 'dynamic_update_slice', 3) or as_sym(body.args[0]) != Sym('$carry'):
+            raise KeyError('body')
+        val, off = body.args[1], body.args[2]
+        L = _eval_int(_axis_len(val[1][0]), env)
+        for i in range(_eval_int(lo, env), _eval_int(hi, env)):
+            o = _eval_int(off[0], dict(env, **{'$i': i}))
+            o = max(0, min(o, size - L))
+            rng = set(range(o, o + L))
+            act = (act | rng) if nonzero_value(val) else (act - rng)
+        return act
+    raise KeyError(str(t)[:80])
+
+
+def _count_symbols(*vals):
+    names = set()
+
+    def rec(x):
+        if isinstance(x, Poly):
+            for a in x.atoms():
+                if a[0] == 'K':
+                    names.add(a[1])
+                elif a[0] == 'S':
+                    rec(a[1])
+        elif isinstance(x, Sym):
+            for y in x.args:
+                rec(y)
+        elif isinstance(x, (tuple, list)):
+            for y in x:
+                rec(y)
+    for v in vals:
+        rec(v)
+    return sorted(names)
+
+
 def _axis_len(name):
     from ..alg import axis_extent
     try:
@@ -261,8 +340,26 @@ def check_mask_activation(p_new, p_old, start, sel, J, what):
     p_old are active): exactly the first start + (J + 1) * sel entries are active afterwards, which includes the block written
     by this step"""
     c_old = lift(start) + lift(J) * lift(sel)
-    c = active_prefix(p_new, p_old, c_old, what)
     want = lift(start) + (lift(J) + 1) * lift(sel)
+    try:
+        c = active_prefix(p_new, p_old, c_old, what)
+    except Inconclusive as inc:
+        # no symbolic order between the quantities involved: the inferred term is evaluated for a few assignments of the count
+        # symbols; an assignment for which the active entries are not the expected prefix is a counterexample
+        names = _count_symbols(as_sym(p_new), c_old, want)
+        pools = ([2, 3, 5, 7, 4, 6, 9, 8], [7, 5, 3, 2, 9, 4, 6, 8], [3, 2, 7, 5, 8, 9, 4, 6])
+        for pool in pools:
+            env = {n_: pool[i_ % len(pool)] + (10 if 'start' in n_ else 0) for i_, n_ in enumerate(names)}
+            try:
+                act = active_set_at(p_new, p_old, c_old, env)
+                exp_n = _eval_int(want, env)
+            except (KeyError, TypeError, ValueError, ZeroDivisionError):
+                continue
+            if act != set(range(exp_n)):
+                extra, missing = sorted(act - set(range(exp_n)))[:4], sorted(set(range(exp_n)) - act)[:4]
+                raise Violation(f"{what}: active entries", f"for {env}: entries {extra} are active beyond the expected ones / entries "
+                                f"{missing} are not active", f"exactly the first {want} = {exp_n} entries active after step number {lift(J)}")
+        raise inc
     if c != want:
         raise Violation(f"{what}: active entries", f"the first {c} entries are active after step number {lift(J)}",
                         f"the first {want} (the block written by this step included)")
